@@ -47,7 +47,8 @@ no errors): grids always state origin and tile_size, caches always name their gr
 Soundness notes for users of this module
  * all SRS of one deployment (grids, supported_srs, coverage, service SRS) come from one DATUM_FAMILIES entry, so
    chained and direct transformations agree (see the comment there).
- * `image.paletted` is false unless spec['paletted'] (see DESIGN section 1).
+ * `image.paletted` is always false in generated specs (DESIGN section 1); config_yaml honours spec['paletted'] if a
+   user of this module sets it, but the quantisation error is not bounded by eps = 16 (28 levels observed).
  * regional grids and coverages lie inside HOME (lon 6.5..11.5, lat 47.5..54.5), where all five SRS are valid.
  * quadkey directory layout and geopackage are not generated (address collisions on non-pyramid grids /
    level-0 finding of C05 would show up as content errors that are not this family's business).
@@ -602,6 +603,8 @@ def config_specs(kinds=('wms', 'wms', 'tile'), cascade=None, direct=None):
         wms_srs = list(pool)
         spec = {'grids': grids, 'source': src, 'caches': caches, 'layers': layers, 'wms_srs': wms_srs,
                 'resampling': draw(st.sampled_from(['bicubic', 'bicubic', 'bilinear', 'nearest'])),
+                # never the default 255-colour PNG quantisation: its colour error is not bounded by any useful eps
+                # (28 levels seen on a gradient-rich 96x160 tile), a pixel oracle cannot be sound there
                 'paletted': False, 'focus': focus, 'family': family}
         return spec
     return build()
